@@ -66,6 +66,24 @@ def oracle_request(defs, ob, complete, init_names):
     return bad
 
 
+def known_type_keyed(R, spec, defs, req, why):
+    """known finding C04-type-keyed-next-state seen from C03: the constructors one pipeline designates for a type differ
+    (in particular in lifecycle), and the type-keyed `Next` state hands one of them to everybody."""
+    import re
+    m = re.search(r"(?:transient|constructor) `(\w+)`", why)
+    if not m or m.group(1) not in defs or req.get("route") is None:
+        return None
+    ty = defs[m.group(1)]["out"]
+    des = gen_scopes.designations(spec)
+    comps = [("h", req["route"])] + [("m", mid) for _, mid in (gen_scopes.chain_of(spec["bp"], req["route"]) or [])]
+    if len({des[c].get(ty) for c in comps if c in des}) <= 1:
+        return None
+    for f in R.kf.get("findings", []):
+        if f.get("id") == "C04-type-keyed-next-state" and f.get("status") == "known" and "C03" in f.get("also", []):
+            return f
+    return None
+
+
 def run(R):
     R.assumptions += [
         "a constructor is identified by its function: the generated applications register one function against one blueprint only "
@@ -94,7 +112,7 @@ def run(R):
     progs = [n for n, d in rt.items() if lifetrace.usable(obs[n]["spec"]) and d["result"] and "responses" in d["result"]]
     llines = [json.dumps(gen_scopes.life_request(obs[n]["spec"])) for n in progs]
     louts = [json.loads(x) for x in pxvlib.run_model("life", llines)] if llines else []
-    n_req = n_nontrivial = n_values = 0
+    n_req = n_nontrivial = n_values = n_known = 0
     seen = set()
     hist = {"requests": {}, "by-family": {}, "hoisted_components": 0, "transient_nodes": 0, "singleton_fields": 0}
     samples = []
@@ -159,6 +177,11 @@ def run(R):
                 dis.append({"program": name, "what": "trace lines the check cannot interpret", "lines": ob.unparsed[:5]})
             complete = tag in COMPLETE_TAGS and resp.get("status") == 200
             for why in oracle_request(defs, ob, complete, set(singles.values())):
+                kf = known_type_keyed(R, spec, defs, req, why)
+                if kf is not None:
+                    R.known_hit(kf, "%s %s" % (name, where))
+                    n_known += 1
+                    continue
                 fails.append({"program": name, "request": where, "why": why, "trace": resp.get("trace"), "app_module_source": obs[name]["src"]})
             if tag in ("unknown-path", "wrong-method"):
                 mr = routes.get("fallback")  # the root blueprint's fallback handler, wrapped by the root's middlewares
